@@ -5,7 +5,7 @@ From Coq Require Import List Bool Arith Lia.
 Import ListNotations.
 Require Import Kinds PyStr Line Matcher Ast Builder BuilderSafe AstIds Automaton AutoFacts Pipeline PipelineFacts Dialects Table TableFacts
                MatcherTyping C02Lemmas Delivery DeliveryInst PathReplay DenseDefs DenseFacts DenseStack DenseMain
-               OrdDefs OrdFacts ConserveDefs ConserveCert ConserveFacts.
+               OrdDefs OrdFacts ConserveDefs ConserveCert ConserveFacts ShapeDefs ShapeCert Safety.
 
 Definition fresh3 (i i' : nat) : list elem := [].
 
@@ -25,7 +25,7 @@ Qed.
 Lemma c_fresh af n c i v i' : crfree (af_rule af) = true -> cnrel3 af n -> transform_node n c i = TOk v i' -> fresh3 i i' = [].
 Proof. reflexivity. Qed.
 
-Notation csrel3 := (csrel ic3 cpat cxr).
+Notation csrel3 := (csrel ic3 cpat cxr cfo).
 Notation stack3 := (stack_c ic3).
 
 (* the tokens a path builds, with the kind each was matched as *)
@@ -67,38 +67,59 @@ Proof.
     destruct (m_text t); [|discriminate]. inversion B1; subst. cbn [b_comments]. now rewrite <- app_assoc.
 Qed.
 
-Definition cinv (s : nat) (b : bstate) (l : list (token * test)) : Prop :=
+Definition cinv (s : nat) (b : bstate) (l : list (token * test)) (m : mstate) : Prop :=
   exists rec, dlookup s kappa = Some rec /\ csrel3 rec (b_stack b)
               /\ stack3 (b_stack b) = flat_map kt_elems (path_kts l)
-              /\ b_comments b = flat_map kt_comments (path_kts l).
+              /\ b_comments b = flat_map kt_comments (path_kts l)
+              /\ (ms_sep m = None <-> dsb s = false).   (* inside a doc string exactly in the doc-string states *)
 
-Lemma reach_cinv b1 m1 : cinv Table.start_state b1 [] -> forall s b l m, reach rP tok_step b1 m1 s b l m ->
-  cinv s b l /\ Forall (fun kt => tok_made (fst kt) (snd kt)) (path_kts l).
+Lemma silent_sep s k m t m' : (ms_sep m = None <-> dsb s = false) -> matcher dialects k m (canon t) = MYes t m' ->
+  csl s k = true -> ic3 (KT k, VTok t) = [].
+Proof.
+  intros Sep Mm Sl. unfold csl in Sl. apply andb_prop in Sl as [K D]. apply kind_beq_eq in K. subst k.
+  fold (dsb s) in D. destruct (ms_sep m) as [sep|] eqn:Ms.
+  - unfold ic3. cbn [fst snd]. unfold tok_elems. rewrite (matcher_sep_close _ _ _ _ _ _ Ms Mm). reflexivity.
+  - destruct Sep as [S1 _]. rewrite (S1 eq_refl) in D. discriminate.
+Qed.
+
+Lemma reach_cinv b1 m1 : cinv Table.start_state b1 [] m1 -> forall s b l m, reach rP tok_step b1 m1 s b l m ->
+  cinv s b l m /\ Forall (fun kt => tok_made (fst kt) (snd kt)) (path_kts l).
 Proof.
   intros H0 s b l m R. induction R as [|s b l m x y t b' m' R IH Hx Hid Hy Ht Hb]; [split; [exact H0 | constructor]|].
-  destruct IH as [(rec & Hl & S & Ce & Cc) Ft].
+  destruct IH as [(rec & Hl & S & Ce & Cc & Sep) Ft].
   pose proof kappa_ok as G. unfold ord_ok in G. apply andb_prop in G as [_ G]. rewrite forallb_forall in G.
   specialize (G x Hx). rewrite Hid, Hl in G. rewrite forallb_forall in G. specialize (G y Hy).
-  destruct (o_prods cpat crfree ctfree cxr (t_kind y) (t_prods y) rec) as [stk'|] eqn:D; [|discriminate].
+  destruct (o_prods cpat crfree ctfree cxr cfo (csl s (t_kind y)) (t_kind y) (t_prods y) rec) as [stk'|] eqn:D; [|discriminate].
   destruct (dlookup (t_tgt y) kappa) as [rec'|] eqn:Hl'; [|discriminate].
-  pose proof Ht as [[Mt _] _]. rewrite bops_bsteps in Hb.
-  destruct (o_steps ic3 cpat crfree ctfree cxr fresh3 c_nodup c_xr c_rfree c_tfree c_trans c_fresh _ _ Mt _ _ _ _ _ D Hb S) as (S' & _ & C').
+  pose proof Ht as ([Mt _] & Wm & Mm). rewrite bops_bsteps in Hb.
+  destruct (o_steps ic3 cpat crfree ctfree cxr cfo fresh3 c_nodup c_xr c_rfree c_tfree c_trans c_fresh _ _ _ Mt (silent_sep _ _ _ _ _ Sep Mm) _ _ _ _ _ D Hb S) as (S' & _ & C').
   assert (Pk : path_kts (l ++ [(t, y)]) = path_kts l ++ repeat (t_kind y, t) (count_pb (t_prods y))).
   { unfold path_kts. rewrite flat_map_app. cbn. now rewrite app_nil_r. }
   split.
-  - exists rec'. split; [exact Hl'|]. split; [eapply csrel_weaken; eauto|]. rewrite Pk, !flat_map_app. split.
+  - exists rec'. split; [exact Hl'|]. split; [eapply csrel_weaken; eauto|]. rewrite Pk, !flat_map_app. split; [|split].
     + rewrite C', Ce, (added_kts _ _ _ _ _ Hb). reflexivity.
     + rewrite (bsteps_comments _ _ Mt _ _ _ Hb), Cc. reflexivity.
+    + (* the separator state moves with the doc-string states of the table *)
+      destruct (beta_state x Hx) as (stk0 & _ & _ & Tests). destruct (Tests y Hy) as (stk1 & rec1 & _ & _ & _ & _ & Dsy).
+      rewrite Hid in Dsy. rewrite Dsy. pose proof (matcher_sep _ _ _ _ _ _ Mm) as Ms.
+      destruct (kind_beq (t_kind y) KDocStringSeparator).
+      * destruct (ms_sep m) eqn:E0.
+        -- rewrite Ms. assert (Dx : dsb s = true).
+           { destruct (dsb s) eqn:Dx; [reflexivity|]. destruct Sep as [_ S2]. specialize (S2 eq_refl). discriminate. }
+           rewrite Dx. cbn. tauto.
+        -- destruct Ms as [Sn _]. assert (Dx : dsb s = false) by (apply Sep; reflexivity). rewrite Dx. cbn.
+           split; [intros Xe; congruence | discriminate].
+      * rewrite Ms. exact Sep.
   - rewrite Pk. apply Forall_app. split; [exact Ft|]. apply Forall_forall. intros kt Hin. apply repeat_spec in Hin. subst kt. exact (tok_step_made _ _ _ _ Ht).
 Qed.
 
-Lemma start_cinv b b1 : b_start rP RGherkinDocument (reset_builder b) = BOk b1 -> cinv Table.start_state b1 [].
+Lemma start_cinv b b1 m : ms_sep m = None -> b_start rP RGherkinDocument (reset_builder b) = BOk b1 -> cinv Table.start_state b1 [] m.
 Proof.
-  cbn [b_start pipeline_params]. unfold p_bstart, builder_start. cbn. intros H. inversion H; subst b1. clear H.
+  intros Ms. cbn [b_start pipeline_params]. unfold p_bstart, builder_start. cbn. intros H. inversion H; subst b1. clear H.
   pose proof kappa_ok as G. unfold ord_ok in G. apply andb_prop in G as [G _].
   destruct (dlookup Table.start_state kappa) as [[|f [|? ?]]|] eqn:Hl; try discriminate.
-  exists [f]. split; [exact Hl|]. split; [|split; reflexivity].
-  apply (csrel_weaken ic3 cpat cxr [aframe0]); [cbn; now rewrite G|].
+  exists [f]. split; [exact Hl|]. split; [|split; [reflexivity | split; [reflexivity | rewrite Ms, start_not_ds; tauto]]].
+  apply (csrel_weaken ic3 cpat cxr cfo [aframe0]); [cbn; now rewrite G|].
   exists [Node (KR RGherkinDocument) []], (Node KNone []). split; [reflexivity|]. split; [|reflexivity].
   constructor; [apply cnrel_fresh | constructor].
 Qed.
@@ -144,6 +165,9 @@ Proof.
   destruct p; cbn; [exact IHp | exact IHp | f_equal; exact IHp].
 Qed.
 
+Lemma reset_sep m : ms_sep (reset_matcher dialects m) = None.
+Proof. unfold reset_matcher. destruct (str_eqb _ _); [reflexivity|]. destruct (find_dialect _ _); reflexivity. Qed.
+
 Theorem source_conservation stop m b src d m1 b1 n : wf_ms m -> parse_source stop m b src = POk d m1 b1 n ->
   exists kts : list (kind * token),
     map (fun kt => tkey (snd kt)) kts = source_keys src
@@ -155,7 +179,7 @@ Proof.
   destruct (parse rP stop (scan src) (reset_matcher dialects m) (reset_builder b)) as [[] c|e c|es c|c|] eqn:P; try discriminate.
   destruct (builder_result (bs c)) as [d0|] eqn:Br; [|discriminate]. intros H. inversion H; subst. clear H.
   destruct (path_replay rP wf_ms wf_ms_kept quiet_p p_fail p_raise p_quiet p_la p_guard tok_step pipe_step pipe_eof' _ _ _ _ _ (proj1 (reset_matcher_wf' m W)) P) as (b2 & s & b3 & l & m2 & Hs & R & He & Hend & Hev).
-  destruct (reach_cinv b2 _ (start_cinv _ _ Hs) s b3 l m2 R) as [(rec & Hl & S & Ce & Cc) Ft].
+  destruct (reach_cinv b2 _ (start_cinv _ _ _ (reset_sep m) Hs) s b3 l m2 R) as [(rec & Hl & S & Ce & Cc & _) Ft].
   destruct (ends_doc3 s He) as (f & Hf & Hr). rewrite Hf in Hl. inversion Hl; subst rec.
   exists (path_kts l). split; [|split; [exact Ft | exact (final_conserve _ _ _ _ _ S Hr Ce Cc Hend Br)]].
   rewrite <- Dl. unfold delivered. rewrite Hev. cbn [flat_map]. rewrite flat_map_app. cbn. rewrite app_nil_r. symmetry. apply delivered_path.
